@@ -207,7 +207,8 @@ Done == phase = "done"
 ExpectedOK == \A i \in 1..NP : pts[i].req => Cands(pts[i]) # {}
 
 \* C06: sound and complete by type
-C06_Sound == status = "ok" => \A i \in 1..NP : \A p \in SeqSet(R(i)) : Compat(pts[i], pop[p]) /\ p # H
+\* (p \in Prov: whatever is in the field after a successful start is a registered component - not, say, what the field held before)
+C06_Sound == status = "ok" => \A i \in 1..NP : \A p \in SeqSet(R(i)) : p \in Prov /\ Compat(pts[i], pop[p]) /\ p # H
 C06_CompleteSlice ==
   status = "ok" => \A i \in 1..NP : (IsSlice(pts[i]) /\ ~pts[i].hasQ /\ pts[i].byName = 0) =>
       (SeqSet(R(i)) = Cands(pts[i]) /\ Len(R(i)) = Cardinality(Cands(pts[i])))
@@ -225,7 +226,7 @@ C07_MissingFails ==
 C07_Untouched == status = "ok" => \A i \in 1..NP : Cands(pts[i]) = {} => res[i] = Untouched(sc)
 \* C08: qualifier and preference, per field
 C08_Qualifier ==
-  status = "ok" => \A i \in 1..NP : pts[i].hasQ => \A p \in SeqSet(R(i)) : QualOK(pts[i], pop[p])
+  status = "ok" => \A i \in 1..NP : pts[i].hasQ => \A p \in SeqSet(R(i)) : p \in Prov /\ QualOK(pts[i], pop[p])
 C08_Preference ==
   status = "ok" => \A i \in 1..NP : (~IsSlice(pts[i]) /\ R(i) # <<>>) => R(i)[1] \in TieSet(pts[i])
 PointOK(i) ==
